@@ -4,7 +4,7 @@
 //
 // Line protocol (one output line per input line):
 //   n2sr  <d|f> <hexbits> <prec> <fmt 0|1|2> <w 1|2|4> <pre-units>  -> units appended after <pre>
-//   n2sra <d|f> <hexbits> <w 1|2|4> <pre-units>                     -> the same for prec 0..40 x fmt 0,1,2, joined by ';'
+//   n2sra <d|f> <hexbits> <w 1|2|4|W> <pre-units>   (W = wchar_t: its own DigitUtils specialisation)                     -> the same for prec 0..40 x fmt 0,1,2, joined by ';'
 //   n2si  <8|16|32|64> <signed 0|1> <decimal> <w 1|2|4> <pre-units> -> units appended after <pre>
 //   n2sir <8|16|32|64> <decimal>                                     -> units written by IntToString<true> (reversed digits)
 //   n2sirs <8|16|32|64> <signed 0|1> <decimal> -> units appended by NumberToString<true>(stream, v): sign, then reversed digits
@@ -303,6 +303,7 @@ int main(int argc, char **argv) {
             if (t[5] == "1") vh::emit(doReal<char>(is_d, bits, prec, fmt, pre));
             else if (t[5] == "2") vh::emit(doReal<char16_t>(is_d, bits, prec, fmt, pre));
             else if (t[5] == "4") vh::emit(doReal<char32_t>(is_d, bits, prec, fmt, pre));
+            else if (t[5] == "W") vh::emit(doReal<wchar_t>(is_d, bits, prec, fmt, pre));
             else vh::emit("bad-op");
         } else if (t[0] == "n2sra" && t.size() == 5 && vh::parse_nats(t[4], pre)) {
             const bool     is_d = (t[1] == "d");
@@ -313,6 +314,7 @@ int main(int argc, char **argv) {
                     if (!res.empty()) res += ';';
                     if (t[3] == "1") res += doReal<char>(is_d, bits, p, f, pre);
                     else if (t[3] == "2") res += doReal<char16_t>(is_d, bits, p, f, pre);
+                    else if (t[3] == "W") res += doReal<wchar_t>(is_d, bits, p, f, pre);
                     else res += doReal<char32_t>(is_d, bits, p, f, pre);
                 }
             vh::emit(res);
@@ -322,6 +324,7 @@ int main(int argc, char **argv) {
             if (t[4] == "1") vh::emit(doInt<char>(bits, sgn, t[3], pre));
             else if (t[4] == "2") vh::emit(doInt<char16_t>(bits, sgn, t[3], pre));
             else if (t[4] == "4") vh::emit(doInt<char32_t>(bits, sgn, t[3], pre));
+            else if (t[4] == "W") vh::emit(doInt<wchar_t>(bits, sgn, t[3], pre));
             else vh::emit("bad-op");
         } else if (t[0] == "n2sir" && t.size() == 3) {
             const unsigned     bits = unsigned(strtoul(t[1].c_str(), nullptr, 10));
